@@ -1511,7 +1511,7 @@ Proof.
   split; [apply (Hb (e, sc) Hin)|]. split; [apply Hw, He | intros s Hs; apply (Hh e s He Hs)].
 Qed.
 
-Notation safe := (resume_safe hx ahdr aparse).
+Notation safe := (tr_resume_safe hx ahdr aparse).
 
 Theorem transfer_ok c d items f0 per all stf : table_ok c -> tr_bytes_ok items ->
   stat f0 d = SFound Dir -> tr_wf c (map fst items) -> tr_hdrs_ok ahdr aparse (map fst items) ->
